@@ -10,6 +10,9 @@ import (
 type Gen struct {
 	r     *RNG
 	proto bool // ProtoCompatibleArrays is set on the instance the type is for
+	noProtoTag   bool // do not attach the proto tag option
+	finiteFloats bool // no NaN / Inf values
+	noNarrowFlat bool // the flat option only on int / int64
 	stats map[string]int
 }
 
@@ -162,7 +165,7 @@ func (g *Gen) fieldType(depth int) fieldChoice {
 	switch g.r.Intn(14) {
 	case 0, 1, 2:
 		t := g.vtype()
-		if u := t.under(); len(u.K) >= 3 && u.K[:3] == "int" && g.r.P(35) {
+		if u := t.under(); len(u.K) >= 3 && u.K[:3] == "int" && g.r.P(35) && !(g.noNarrowFlat && bitsOf(u.K) < 64) {
 			g.count("opt.flat")
 			return fieldChoice{t, "flat"}
 		}
@@ -180,7 +183,7 @@ func (g *Gen) fieldType(depth int) fieldChoice {
 		t := g.sliceType(depth, true)
 		// (a tag option on a plain []byte silently selects the packed-varint
 		// wrapper instead of BytesCodec: outside the documented format, not generated)
-		if g.r.P(20) && !t.isBytes() {
+		if g.r.P(20) && !t.isBytes() && !g.noProtoTag {
 			g.count("opt.proto-slice")
 			return fieldChoice{t, "proto"}
 		}
@@ -190,7 +193,7 @@ func (g *Gen) fieldType(depth int) fieldChoice {
 			return fieldChoice{B("str"), ""}
 		}
 		m := Map(g.keyType(depth-1), g.mapValueType(depth-1))
-		if g.r.P(20) {
+		if g.r.P(20) && !g.noProtoTag {
 			g.count("opt.proto-map")
 			return fieldChoice{m, "proto"}
 		}
@@ -403,15 +406,27 @@ func (g *Gen) Value(t *TyDef, budget *int) *Val {
 		}
 		return &Val{K: "u", U: v}
 	case "f32":
-		if g.r.P(60) {
-			return &Val{K: "f32", U: f32Specials[g.r.Intn(len(f32Specials))]}
+		for {
+			u := g.r.U64() & 0xFFFFFFFF
+			if g.r.P(60) {
+				u = f32Specials[g.r.Intn(len(f32Specials))]
+			}
+			if g.finiteFloats && u&0x7F800000 == 0x7F800000 {
+				continue
+			}
+			return &Val{K: "f32", U: u}
 		}
-		return &Val{K: "f32", U: g.r.U64() & 0xFFFFFFFF}
 	case "f64":
-		if g.r.P(60) {
-			return &Val{K: "f64", U: f64Specials[g.r.Intn(len(f64Specials))]}
+		for {
+			u := g.r.U64()
+			if g.r.P(60) {
+				u = f64Specials[g.r.Intn(len(f64Specials))]
+			}
+			if g.finiteFloats && u&0x7FF0000000000000 == 0x7FF0000000000000 {
+				continue
+			}
+			return &Val{K: "f64", U: u}
 		}
-		return &Val{K: "f64", U: g.r.U64()}
 	case "str":
 		return &Val{K: "s", Data: g.strBytes()}
 	case "time":
